@@ -180,6 +180,7 @@ func identifierSlots(c *Ctx, wr, rd *declInfo) {
 		construct := "cdx-component#Identifiers[" + strings.TrimPrefix(sl.idConst, "SoftwareIdentifierType_") + "]"
 		// writer: assignment to c.<field> inside a case clause naming the constant, value from n.Identifiers
 		wOK := false
+		wdefs := singleDefs(wr.pkg, wr.fd.Body) // the value may pass through a local: `if cpe := n.Identifiers[t]; cpe != "" { c.CPE = cpe }`
 		ast.Inspect(wr.fd.Body, func(n ast.Node) bool {
 			cc, ok := n.(*ast.CaseClause)
 			if !ok {
@@ -192,7 +193,7 @@ func identifierSlots(c *Ctx, wr, rd *declInfo) {
 			for _, st := range cc.Body {
 				ast.Inspect(st, func(m ast.Node) bool {
 					if as, ok := m.(*ast.AssignStmt); ok && len(as.Lhs) == 1 && len(as.Rhs) == 1 {
-						if sel, ok := as.Lhs[0].(*ast.SelectorExpr); ok && sel.Sel.Name == sl.field && strings.Contains(types.ExprString(as.Rhs[0]), "Identifiers[") {
+						if sel, ok := as.Lhs[0].(*ast.SelectorExpr); ok && sel.Sel.Name == sl.field && strings.Contains(types.ExprString(chase(wr.pkg, wdefs, as.Rhs[0])), "Identifiers[") {
 							wOK = true
 						}
 					}
